@@ -407,7 +407,7 @@ op_reg_tmr(int64_t us, int dbl, int al)
 		t0 = now_us();
 		LIB_ENTER();
 		if (r->dbl) {
-			/* multiples of 1/8 ms are exactly representable */
+			/* (multiples of 1/8 ms; not exactly representable in binary, hence the 1 us allowance in dl_lo) */
 			double d = (double)(r->timeo_us / 125) * 0.000125;
 
 			r->timeo_us = (r->timeo_us / 125) * 125;
@@ -432,7 +432,8 @@ op_reg_tmr(int64_t us, int dbl, int al)
 		if (attempt == 1)
 			sim_viol("C14.retry", "tmr", "events_timer_register failed again with a healthy allocator");
 	}
-	r->dl_lo = t0 + r->timeo_us;
+	/* the documented double -> timeval conversion truncates: the library's deadline may be 1 us earlier */
+	r->dl_lo = t0 + r->timeo_us - ((r->dbl && r->timeo_us > 0) ? 1 : 0);
 	r->dl_hi = t1 + r->timeo_us;
 	r->live = 1;
 	count_pending_update();
@@ -510,7 +511,7 @@ op_reset_tmr(int64_t a)
 	t1 = now_us();
 	if (rc != 0)
 		sim_viol("C04.retval", "reset", "events_timer_reset failed");
-	r->dl_lo = t0 + r->timeo_us;
+	r->dl_lo = t0 + r->timeo_us - ((r->dbl && r->timeo_us > 0) ? 1 : 0);
 	r->dl_hi = t1 + r->timeo_us;
 	R->cnt[N_RESET]++;
 	TR(0x70, r->id, 0, "reset_tmr id=%d deadline=[%lu,%lu]", r->id,
@@ -705,7 +706,7 @@ the_callback(void * cookie)
 		uint64_t n = now_us();
 
 		R->cnt[N_CB_TMR]++;
-		if (n + (r->dbl ? 1 : 0) < r->dl_lo)
+		if (n < r->dl_lo)
 			sim_viol("C04.early", "early", "timer id=%d ran at +%lu us, before its deadline +%lu us", r->id,
 			    (unsigned long)(n - T0_NS / 1000), (unsigned long)(r->dl_lo - T0_NS / 1000));
 		for (i = 0; i < nreg; i++)
